@@ -114,6 +114,49 @@ def elemStr (v : Nat) : Str :=
   | 7 => [226, 134, 146, 120]      -- "→x"
   | v => 115 :: (Nat.toDigits 10 v).map Char.toNat
 
+/-! ### element equality (`vtable.eq_fn` / `T: PartialEq`)
+
+Element values are natural numbers. A value below `2^64` is a *plain* value —
+an integer, the index of a string in `elemStr`, the id of a tracked value, a
+handle of an inner list — and two plain values are equal iff they are the same
+number. A value `2^64 + b` is the IEEE-754 binary64 with the bit pattern `b`
+(an element of a `List[f64]`): its `==` is not the identity on bit patterns —
+`0.0 == -0.0` although the bits differ, and a NaN is not equal to anything,
+itself included. This is the equality the element `eq_fn` of a list (and
+`PartialEq` of the elements of a `Vec`) computes; comparing the buffers as raw
+bytes is a different function. -/
+
+/-- where the floating-point element values start -/
+def f64Base : Nat := 2 ^ 64
+
+/-- the bit pattern is a NaN: exponent all ones, mantissa not zero -/
+def f64IsNan (b : Nat) : Bool := decide (0x7FF0000000000000 < b % 2 ^ 63)
+
+/-- `+0.0` or `-0.0` -/
+def f64IsZero (b : Nat) : Bool := b % 2 ^ 63 == 0
+
+/-- IEEE-754 `==` on binary64 bit patterns -/
+def f64Eq (a b : Nat) : Bool :=
+  !f64IsNan a && !f64IsNan b && (a == b || (f64IsZero a && f64IsZero b))
+
+/-- `==` on element values -/
+def elemEq (x y : Nat) : Bool :=
+  if f64Base ≤ x ∧ f64Base ≤ y then f64Eq (x - f64Base) (y - f64Base) else x == y
+
+/-- `==` of two slices / vectors (`[T]: PartialEq`): same length, equal element by element -/
+def listEq : List Nat → List Nat → Bool
+  | [], [] => true
+  | x :: xs, y :: ys => elemEq x y && listEq xs ys
+  | _, _ => false
+
+/-- `iter().position(|e| *e == v)`, counting from `i` -/
+def firstIdx (v : Nat) : List Nat → Nat → Option Nat
+  | [], _ => none
+  | x :: xs, i => if elemEq x v then some i else firstIdx v xs (i + 1)
+
+/-- `[T]::contains`: `iter().any(|e| *e == v)` -/
+def anyEq (v : Nat) (xs : List Nat) : Bool := xs.any (fun e => elemEq e v)
+
 /-- integer types an `as` cast in a list binding can go from / to -/
 inductive CastTy
   | u8 | u16 | u32 | u64 | usize | i8 | i16 | i32 | i64 | isize
